@@ -34,7 +34,7 @@ func init() {
 		StubParts:  []string{"fitness assignment (seeded deterministic landscape) / GenerationEvaluator (scripted, deterministic)", "wall clock in the fake-clock perturbation (testing/synctest)"},
 		FaultKinds: []string{"fault.clock_jump", "fault.heap_churn_gc", "fault.unrelated_work", "fault.gomaxprocs_change", "fault.gc_setting_change", "fault.fresh_process"},
 		Assumes:    []string{"the harness module declares go 1.23 so that rand.Seed seeds the global source under the go1.26 toolchain", "a panic inside the library is part of the outcome (both executions must panic at the same step); its text is not compared"},
-		ProbeNames: []string{"probe.rerun.immediately", "probe.rerun.after_unrelated_work", "probe.rerun.runtime_settings", "probe.rerun.fake_clock_jumps", "probe.rerun.fresh_process", "probe.scenario.world", "probe.scenario.experiment", "probe.structural_innovation", "probe.species>=2", "probe.random_world", "probe.readback_world"},
+		ProbeNames: []string{"probe.rerun.immediately", "probe.rerun.after_unrelated_work", "probe.rerun.runtime_settings", "probe.rerun.fake_clock_jumps", "probe.rerun.fresh_process", "probe.rerun.same_start_object", "probe.scenario.world", "probe.scenario.experiment", "probe.structural_innovation", "probe.species>=2", "probe.random_world", "probe.readback_world"},
 	})
 }
 
@@ -78,6 +78,7 @@ type c17Outcome struct {
 	Multi  bool // more than one species at some point
 	Random bool
 	Read   bool
+	Start  *genetics.Genome // the start genome object the execution used (nil for random populations)
 }
 
 func (o *c17Outcome) add(label, dump string) {
@@ -91,6 +92,9 @@ type c17Env struct {
 	between func(step int) // called between epochs / at evaluator entry
 	bubble  bool
 	sleepNs []int64 // experiment: evaluator durations under the fake clock (nil = as drawn)
+	// reuseStart: the execution is given this start genome object (the one an earlier execution already used) instead
+	// of a freshly built one: a library that lets descendants write through to the start genome shows here
+	reuseStart *genetics.Genome
 }
 
 func c17Spec(t *Tape, thorough bool) (WorldSpec, int) {
@@ -104,6 +108,7 @@ func c17Spec(t *Tape, thorough bool) (WorldSpec, int) {
 		AllowShipped: true,
 		AllowRandom:  true,
 		AllowRead:    true,
+		AllowModular: true,
 	}, maxEpochs
 }
 
@@ -154,6 +159,19 @@ func runC17World(t *Tape, thorough bool, env *c17Env, out *c17Outcome) {
 		out.add("construct", "constructor error: "+w.ConstructErr.Error())
 		return
 	}
+	out.Start = w.Start
+	if env != nil && env.reuseStart != nil && (w.Kind == StartBuilt || w.Kind == StartShipped) {
+		// same seed, same options, but the start genome is the object the reference execution spawned from
+		seedLib(w.LibSeed)
+		var err error
+		if guarded(out, "construct", func() { w.Pop, err = genetics.NewPopulation(env.reuseStart, w.Opts) }) {
+			return
+		}
+		if err != nil {
+			out.add("construct", "constructor error: "+err.Error())
+			return
+		}
+	}
 	out.add("after construction", PopDump(w.Pop))
 	epochs := t.Range("epochs", 1, maxEpochs)
 	maxInnov0, _ := genetics.VerifCounters(w.Pop)
@@ -193,6 +211,10 @@ func runC17Experiment(t *Tape, thorough bool, env *c17Env, out *c17Outcome) {
 	}
 	s.Opts.EpochExecutorType = neat.EpochExecutorTypeSequential
 	out.Desc = "experiment: " + s.Describe()
+	out.Start = s.Start
+	if env != nil && env.reuseStart != nil {
+		s.Start = env.reuseStart
+	}
 	s.NoBubble = true // the bubble, if any, is installed around the whole execution by runC17
 	inBubble := env != nil && env.bubble
 	step := 0
@@ -250,10 +272,11 @@ const (
 	pertRuntime
 	pertClock
 	pertProcess
+	pertSameStart
 	numPerts
 )
 
-var pertNames = []string{"immediately-again", "after-unrelated-work", "runtime-settings", "fake-clock-jumps", "fresh-process"}
+var pertNames = []string{"immediately-again", "after-unrelated-work", "runtime-settings", "fake-clock-jumps", "fresh-process", "same-start-genome-object"}
 
 var c17Junk [][]byte // keeps heap churn alive across executions so that later allocations land elsewhere
 
@@ -371,7 +394,10 @@ func scenarioC17(c *RunCtx) {
 	}
 	reruns := t.Range("reruns", 1, 4)
 	for i := 0; i < reruns; i++ {
-		w := []int{2, 3, 2, 3, 1}
+		w := []int{2, 3, 2, 3, 1, 2}
+		if ref.Start == nil {
+			w[pertSameStart] = 0
+		}
 		if !HasFakeClock {
 			w[pertClock] = 0
 		}
@@ -431,6 +457,9 @@ func scenarioC17(c *RunCtx) {
 			c.CountN("fault.clock_jump", jumps)
 			c.SimNanos += int64(total)
 			detail = fmt.Sprintf(" (fake clock from 2000-01-01, %d jumps, %v simulated)", jumps, total)
+		case pertSameStart:
+			c.Count("probe.rerun.same_start_object")
+			got = runC17(NewReplayTape(sub), c.Thorough, &c17Env{reuseStart: ref.Start})
 		case pertProcess:
 			c.Count("probe.rerun.fresh_process")
 			c.Count("fault.fresh_process")
